@@ -118,7 +118,7 @@ def extra_checks(tier, workdir):
 
 
 def replay(result, workdir, seed):
-    return False, 'native replay for the spline family not built yet'
+    return spline_replay('C13', result, workdir, seed)
 
 
 def replay_file(path):
